@@ -362,6 +362,40 @@ func (sc scen) body() (func(), func() ([]int, string)) {
 				}
 				return got, ""
 			}
+	case "svg-object":
+		// the exported SVG drawing object used as a sink by the caller: each batch is added line by line and followed
+		// by Save(); the drawing accumulates, so the file after the last Save holds every line added so far, in order
+		return func() {
+				vos.Reset(nil)
+				o := render.NewSVG("obj.svg", "fill:none;stroke:black;stroke-width:0.1")
+				k := 0
+				for _, n := range sc.Batches[0] {
+					for i := 0; i < n; i++ {
+						l := line(k)
+						o.Line(l[0], l[1])
+						k++
+					}
+					o.Save()
+				}
+			}, func() ([]int, string) {
+				d := vos.Files["obj.svg"]
+				if d == nil {
+					return nil, "no file"
+				}
+				var got []int
+				s := string(d.B)
+				for {
+					i := indexOf(s, "<line x1=\"")
+					if i < 0 {
+						break
+					}
+					s = s[i+10:]
+					var x float64
+					fmt.Sscanf(s, "%f", &x)
+					got = append(got, int(math.Round(x)))
+				}
+				return got, ""
+			}
 	case "to3mf":
 		// 3MF and DXF are written to the real file system by the writer goroutine (their libraries take a
 		// path); the file is decoded with the independent readers after every execution
@@ -629,6 +663,11 @@ func main() {
 	}
 	for _, s := range seqs([]int{0, 1, T - 1, T, T + 1, 2*T + 3}, 2) {
 		scens = append(scens, scen{Kind: "to3mf", Batches: [][]int{s}, Bound: -1})
+	}
+	for _, s := range seqs([]int{1, 2, 5, L + 1}, 3) {
+		if total(s) > 0 {
+			scens = append(scens, scen{Kind: "svg-object", Batches: [][]int{s}, Bound: -1})
+		}
 	}
 	for _, s := range seqs([]int{0, 1, L - 1, L, L + 1, 2*L + 3}, 2) {
 		scens = append(scens, scen{Kind: "todxf", Batches: [][]int{s}, Bound: -1})
